@@ -579,8 +579,13 @@ class Ctx:
         self.root_cls = None
 
     def replay(self, path):
-        t = {k: v for k, v in self.task.items() if not k.startswith("_")}
+        t = {k: v for k, v in self.task.items() if not k.startswith("_") and k != "pair"}
         t["path"] = path
+        return t
+
+    def replay_pair(self, path, op1, op2):
+        t = {k: v for k, v in self.task.items() if not k.startswith("_") and k not in ("pair", "path")}
+        t["pair"] = {"path": path, "op1": op1, "op2": op2}
         return t
 
 
@@ -601,8 +606,133 @@ def ops_fn_factory(ctx: Ctx):
             yield op
             sib, ctx.siblings = ctx.siblings, []
             stack[:0] = [{"m": op["m"], "kw": op["kw"], "draws": d} for d in sib]
+        pd = ctx.task.get("pair_depth", -1)
+        if pd is None or len(getattr(st, "_vf_path", [])) <= pd:
+            run_pairs(st, ctx)
 
     return ops_fn
+
+
+# ------------------------------------------------------------------------------------------
+# in-place pairs: clone ONCE, apply m1 and then m2 on the same object (no clone in between)
+
+
+def component(name):
+    return tuple(name.split(".")[:-1])
+
+
+def pair_selected(spec, m1, m2):
+    """module specs: the two methods live in the same component or one component contains the other (for a plain module:
+    every ordered pair); network specs: one component strictly contains the other (parent re-creation vs nested mutation)."""
+    c1, c2 = component(m1), component(m2)
+    related = c1 == c2[:len(c1)] or c2 == c1[:len(c2)]
+    if spec in NETWORK_SPECS:
+        return related and c1 != c2
+    return related
+
+
+def _exec_op(c, op, seed_off):
+    d = Draws(op["draws"])
+    _seed(SEED + seed_off)
+    try:
+        with scripted(d):
+            getattr(c, op["m"])(**typed_kwargs(op["kw"]))
+    finally:
+        op["draws"][:] = d.full
+    return d
+
+
+def pair_once(st, op1, op2, ctx, rp, with_clone):
+    """one execution of the pair; the SECOND step is judged (from the architecture / weights observed after the first).
+    with_clone=True is the control experiment (the library's usual clone between the two mutations)."""
+    p, oracle = ctx.p, ctx.oracle
+    _seed(SEED)
+    c = st.clone()
+    oracle.before(c, ctx)
+    try:
+        _exec_op(c, op1, 1)
+    except HarnessError:
+        raise
+    except Exception:
+        return "m1-raised"  # judged on the single edge
+    if with_clone:
+        _seed(SEED)
+        try:
+            c = c.clone()
+        except Exception:
+            return "clone-after-m1-raised"  # judged on the single edge
+    if op2["m"] not in c.mutation_methods:
+        return "m2-not-advertised-after-m1"
+    a_mid, s_mid = arch(c), param_shapes(c)
+    pre_mid = oracle.mid(c, ctx)
+    try:
+        d2 = _exec_op(c, op2, 4)
+    except HarnessError:
+        raise
+    except Exception as ex:
+        p.evaluations += 1
+        if oracle.JUDGES_MUTATION_EXCEPTIONS:
+            p.viol(f"{type(c).__name__}/{_gen(op2['m'])}/exception/{type(ex).__name__}{_feat(c, op2['m'])}",
+                   f"{op2['m']}({op2['kw']}) draws={op2['draws']} raised {ex!r} in architecture {_short(a_mid)}", rp)
+        return "m2-raised"
+    p.evaluations += 1
+    e = Edge()
+    e.op, e.draws, e.ret, e.a0, e.shapes0, e.replay = op2, list(d2.log), None, a_mid, s_mid, rp
+    e.applied = c.last_mutation_attr
+    e.a1, e.shapes1 = arch(c), param_shapes(c)
+    e.changed = (e.a0 != e.a1) or (e.shapes0 != e.shapes1)
+    cl = annotate(c, ctx, rp)
+    oracle.after(pre_mid, c, cl, e, ctx)
+    return "done:" + jhash([e.a1, e.shapes1, e.applied])
+
+
+def judge_pair(st, op1, op2, ctx, rp):
+    real = ctx.p
+    s1 = Partial()
+    ctx.p = s1
+    try:
+        status = pair_once(st, op1, op2, ctx, rp, with_clone=False)
+    finally:
+        ctx.p = real
+    real.transitions += 1
+    real.evaluations += s1.evaluations
+    real.nontrivial |= s1.nontrivial
+    real.outcomes |= {"in-place-pair|" + o for o in s1.outcomes}
+    for k, v in s1.extra.items():
+        if k != "violating_cases":
+            real.extra["in_place_pairs:" + k] += v
+    real.extra["in_place_pairs"] += 1
+    real.extra["in_place_pairs:" + status.split(":")[0]] += 1
+    keys = sorted({v["key"] for v in s1.violations})
+    if s1.violations:
+        # control: the same two mutations with the library's usual clone in between. A verdict the control reproduces is
+        # not specific to the in-place order and keeps its plain key; otherwise the key is tagged.
+        s2 = Partial()
+        ctx.p = s2
+        try:
+            pair_once(st, copy.deepcopy(op1), copy.deepcopy(op2), ctx, rp, with_clone=True)
+        finally:
+            ctx.p = real
+        real.extra["in_place_pairs:control_runs"] += 1
+        kc = {v["key"] for v in s2.violations}
+        for v in s1.violations:
+            key = v["key"] if v["key"] in kc else v["key"] + "/in-place-pair"
+            real.viol(key, f"[in place, no clone in between: {op1['m']}({op1['kw']}) draws={op1['draws']} THEN {op2['m']}] " + v["what"], rp,
+                      observed=v.get("observed"), expected=v.get("expected"))
+        keys = sorted((k if k in kc else k + "/in-place-pair") for k in keys)
+    real.dg("pair", op1["m"], op1["draws"], op2["m"], op2["draws"], status, keys)
+
+
+def run_pairs(st, ctx):
+    names = list(st._vf_adv)
+    path = list(getattr(st, "_vf_path", []))
+    for m1 in names:
+        for m2 in names:
+            if not pair_selected(ctx.spec, m1, m2):
+                continue
+            op1 = {"m": m1, "kw": {}, "draws": []}
+            op2 = {"m": m2, "kw": {}, "draws": []}
+            judge_pair(st, op1, op2, ctx, ctx.replay_pair(path, op1, op2))
 
 
 class Edge:
@@ -683,6 +813,7 @@ def apply_fn_factory(ctx: Ctx):
         p.dg(op["m"], op["kw"], op["draws"], e.applied, jhash(e.a1), e.shapes1)
         if cl is None:
             return None
+        c._vf_path = list(path)
         return c
 
     return apply
@@ -739,6 +870,18 @@ def run(task, oracle_cls) -> Partial:
     m0 = build(spec)
     ctx.root_cls = type(m0).__name__
     cl0 = annotate(m0, ctx, ctx.replay([]))
+    m0._vf_path = []
+    if task.get("pair"):
+        pr = task["pair"]
+        st, apply = m0, apply_fn_factory(ctx)
+        for i, op in enumerate(pr["path"]):
+            st = apply(st, op, pr["path"][: i + 1])
+            p.transitions += 1
+            if st is None:
+                raise HarnessError("pair replay: the path to the source state does not lead to a state")
+        judge_pair(st, pr["op1"], pr["op2"], ctx, ctx.replay_pair(pr["path"], pr["op1"], pr["op2"]))
+        p.traces += 1
+        return p
     if task.get("path") in (None, []):
         p.evaluations += 1
         ctx.oracle.initial(m0, cl0, ctx)
@@ -1054,6 +1197,9 @@ class OracleC03:
     def before(self, c, ctx):
         return None
 
+    def mid(self, c, ctx):
+        return None
+
     def initial(self, m, cl, ctx):
         pre_existing = {k for k, _ in bounds_problems(arch(m))}
         if pre_existing:
@@ -1233,6 +1379,9 @@ class OracleC04:
 
     def before(self, c, ctx):
         fill_pattern(c)
+        return self.mid(c, ctx)
+
+    def mid(self, c, ctx):
         snap = {n: t.detach().clone() for n, t in list(c.named_parameters()) + list(c.named_buffers())}
         outs = {}
         bn = has_batchnorm(c)
@@ -1321,9 +1470,12 @@ class OracleC04:
         p.evaluations += 1
         if resized_any or set(pre["snap"]) != set(now):
             p.nt(f"{ctx.spec}|{e.op['m']}|{jhash(e.a0)}|{jhash(e.a1)}")
-        # unchanged architecture => same function
-        if not e.changed:
-            p.extra["edges_architecture_unchanged"] += 1
+        # unchanged architecture => same function. Also judged when the independent limit model says this mutation had to be
+        # refused (every acceptable result is the source architecture) but the object was rebuilt differently all the same.
+        alts = predict(e.a0, e.op["m"], e.op["kw"], e.draws)
+        refused = bool(alts) and all(x[0] is not None and x[0] == e.a0 for x in alts)
+        if not e.changed or refused:
+            p.extra["edges_architecture_unchanged" if not e.changed else "edges_refused_but_rebuilt_differently"] += 1
             # the factorised-noise buffers are not part of the function being compared
             with torch.no_grad():
                 for n, t in c.named_buffers():
@@ -1345,6 +1497,8 @@ class OracleC04:
                 if not ok:
                     lost = sorted({k.split("/")[1] for k in reported})
                     key = f"unchanged-architecture/outputs-differ/{mode}/lost={'+'.join(lost)}" if lost else f"{root}/unchanged-architecture/outputs-differ/{mode}"
+                    if e.changed:
+                        key = f"{root}/refused-mutation-rebuilt-the-network/outputs-differ/{mode}"
                     p.viol(key,
                            f"{e.op['m']}({e.op['kw']}) draws={e.draws} left the architecture {_short(e.a0)} unchanged but the outputs on probe batch {B} changed ({mode} mode)", e.replay)
         if cl is not None:
@@ -1371,7 +1525,19 @@ def _space_of(spec):
     return spec.split("/")[1]
 
 
+def _pair_depth(tier, spec):
+    """BFS depth up to which a state is also a source of in-place pairs (None: every expanded state)"""
+    plain = spec in MODULE_SPECS and not spec.startswith("multiinput")
+    if tier == "quick":
+        return 2 if plain else 1
+    return None if spec in MODULE_SPECS else 2
+
+
 def plan(tier):
+    return [dict(t, pair_depth=_pair_depth(tier, t["spec"])) for t in _plan(tier)]
+
+
+def _plan(tier):
     out = []
     for s in MODULE_SPECS:
         if tier == "quick":
@@ -1432,4 +1598,13 @@ def bounds(tier):
         "draws": "every answer of every np.random.randint / np.random.choice call made inside the mutation method (domains read off the real call)",
         "search": {s["spec"]: ("BFS to closure" if s["max_depth"] is None else f"BFS, every clone-and-mutate chain of length <= {s['max_depth']}") for s in pl},
         "probe_batches": [1, 2, 3],
+        "in_place_pairs": {
+            "what": "from a source state: clone ONCE, apply m1 and then m2 on the same object (no clone in between); the second step is judged by the "
+                    "same oracle from the architecture/weights observed after the first; a verdict is re-run with a clone in between (control) and "
+                    "carries the key suffix /in-place-pair only when the control does not reproduce it",
+            "pairs": "module specs: every ordered pair (m1, m2) of advertised methods whose components are equal or nested (plain modules: all pairs); "
+                     "network specs: ordered pairs where one method's component strictly contains the other's (root vs encoder/head, encoder vs its feature nets), both orders",
+            "representative": "each method is called with all arguments None and every draw answered with the first element of its domain (lowest layer index, smallest amount / kernel)",
+            "source_states": {s["spec"]: ("every expanded state" if s["pair_depth"] is None else f"states at BFS depth <= {s['pair_depth']}") for s in pl},
+        },
     }
